@@ -5,7 +5,18 @@ import ast
 from .absint import Interp, Frame, AbsRaise, Inexact
 from .loader import AnalysisError, PKG
 from .values import (K, T, Obj, ListV, TupleV, DictV, SetV, FuncRef, ClassRef,
-                     ExtRef, ModRef, PropertyV, StaticV, ClassMethodV)
+                     ExtRef, ModRef, PropertyV, StaticV, ClassMethodV,
+                     NTClass)
+
+# named tuple classes of the standard library that repo classes derive from
+STDLIB_NAMEDTUPLES = {
+    'urllib.parse.SplitResult': NTClass(
+        'SplitResult', ('scheme', 'netloc', 'path', 'query', 'fragment')),
+    'urllib.parse.ParseResult': NTClass(
+        'ParseResult', ('scheme', 'netloc', 'path', 'params', 'query',
+                        'fragment')),
+    'urllib.parse.DefragResult': NTClass('DefragResult', ('url', 'fragment')),
+}
 
 BUILTIN_NAMES = {
     'len', 'isinstance', 'issubclass', 'str', 'bytes', 'int', 'float', 'bool',
@@ -162,6 +173,13 @@ class World:
                 bases.append(interp.eval(b, fr))
             except (AbsRaise, Inexact):
                 bases.append(ExtRef(ast.unparse(b)))
+        # a base that is the result of an unmodelled call is an unknown
+        # external class: attribute lookups on instances stay symbolic
+        bases = [b if not isinstance(b, T) else
+                 ExtRef('<computed base %s>' % ast.unparse(nb))
+                 for b, nb in zip(bases, node.bases)]
+        bases = [STDLIB_NAMEDTUPLES.get(b.name, b) if isinstance(b, ExtRef)
+                 else b for b in bases]
         module = fr.func.module if fr.func else None
         attrs = {}
         cls = ClassRef(node, module, node.name, bases, attrs)
